@@ -3,6 +3,7 @@ import RSV.Driver.Fast
 import RSV.Model.Leopard
 import RSV.Model.Cert
 import RSV.Model.LeoCert
+import RSV.Proofs.LeoSched
 /-! Leopard ops of the driver: the schedule model evaluated on byte shards -/
 namespace Drv
 open RSV RSV.Model
@@ -78,7 +79,13 @@ def leoGenOp (fam : String) (d p : Nat) (dump : Bool) : String :=
         (if (G.map (·.extract 0 d)) == leoLagrange (leoCtx fam) d p then "1" else "0") else "-"
     let cert := if gf16 then "-" else (if Leo.leo8Cert d p G then "1" else "0")
     let body := if dump then hexBytes bytes else hex64 (fnvBytes fnvInit bytes)
-    s!"ok {body} | cert={cert} l0={l0}"
+    -- hypotheses of the structural theorems (C04_local/linear/scratch), decided for this configuration:
+    -- every step addresses rows inside the work area, no row is read before it is written, parity rows end defined
+    let sched := (Leo.encodeSched (leoCtx fam) d p).toList
+    let rows := 2 * m
+    let wf := RSV.Proofs.LeoSched.allInRange rows d sched && RSV.Proofs.LeoSched.initOK rows sched &&
+      (List.range p).all fun i => (RSV.Proofs.LeoSched.definedAfter rows sched)[i]!
+    s!"ok {body} | cert={cert} l0={l0} sched={if wf then 1 else 0}"
 
 /-- Leopard reconstruct through the schedule model on byte shards (`size = 0` = missing) -/
 def leoReconBytes (fam : String) (d p : Nat) (shards : Array ByteArray) (size : Nat) (recoverAll : Bool) : Array (Option ByteArray) :=
